@@ -274,7 +274,7 @@ func c08Scenarios() map[string]*sched.Scenario {
 	cancels := []int{-1, 0, 1, 2, 3, 4, 5, 6}
 	add := func(name string, params []int, body func(x *sched.X)) {
 		m[name] = &sched.Scenario{Name: name, Params: params, Opt: opt, Body: body, Oracle: c08Oracle(name),
-			Setup: func() { world.GetNodes("G", "N1") },
+			Setup:       func() { world.GetNodes("G", "N1") },
 			Interesting: func(x *sched.X, r *vsched.Result) bool { c, _ := x.Vars["cancelled"].(bool); return c || !r.RootDone }}
 	}
 	for _, shape := range []string{"chain4", "diamond"} {
